@@ -767,6 +767,14 @@ def gen_slope(rng):
         ys = [round(rng.uniform(-20, 20), 1) for _ in range(n)]
     if rng.random() < 0.9 and len(set(xs)) == 1:
         xs[0] += 1
+    if rng.random() < 0.3:
+        # the same data on another scale (x in hundred-thousandths or billionths, y likewise): the slope is an ordinary number
+        # although sums of squares of the xs are tiny
+        # (powers of two only: scaling by them is exact in binary floating point, so no new rounding enters)
+        kx = rng.choice([2.0 ** -17, 2.0 ** -30])
+        ky = rng.choice([1, 2 ** -10, 2 ** 10])
+        xs = [x * kx for x in xs]
+        ys = [y * ky for y in ys]
     return {'kind': 'slope', 'fn': 'SLOPE', 'via': rng.choice(['lit', 'var', 'fn']), 'args': ys + xs}
 
 
